@@ -208,7 +208,7 @@ func run() int {
 			}
 			continue
 		}
-		if ct.Props[*prop] && !ct.Trusted {
+		if ct.Props[*prop] && !ct.Trusted && (!ct.ThoroughOnly || *tier == "thorough") {
 			addFn(w.FnByKey[k], ct, false)
 		}
 	}
